@@ -45,6 +45,27 @@ type Ctx struct {
 	Sites int             // call sites / instructions matched by rule instances
 	Notes []string
 	seen  map[string]int
+	// MustPassUsed: rows of the must-pass table that armed a guard rule in this run
+	MustPassUsed map[string]bool
+}
+
+// MustPassAccount: every row of the must-pass table that belongs to this property armed a guard rule (a row that
+// matches no rule any more - the rule's pattern was edited - would otherwise lapse silently).
+func (c *Ctx) MustPassAccount() {
+	if len(c.P.Notes) > 0 {
+		return // fall-back (non-normalised) run: pattern-dependent rules are skipped
+	}
+	var rows []string
+	for k := range MustPass {
+		if strings.HasPrefix(k, c.Prop+"\t") && !c.MustPassUsed[k] {
+			rows = append(rows, k)
+		}
+	}
+	sort.Strings(rows)
+	for _, k := range rows {
+		f := strings.SplitN(k, "\t", 4)
+		c.Fail("floor", f[1], "must-pass table row arms a guard rule: `"+f[3]+"`", "-", "no Guard rule with this function, sense and condition was evaluated")
+	}
 }
 
 func NewCtx(p *load.Program, prop, tier string) *Ctx {
